@@ -44,6 +44,7 @@ class Feat:
         self.tick = True
         self.uncached_p = 4         # one in N cells is uncached
         self.allow_none = False     # some cells allow (and sometimes return) None
+        self.item_base = False      # parameter formulas may choose another base space
         self.__dict__.update(kw)
 
 
@@ -76,8 +77,25 @@ def visible_refs(G, space):
     return names
 
 
-def int_ref_names(G, space):
+def param_names(G, space):
+    """parameter names and formula-returned reference names visible inside instances of ``space``"""
     out = []
+    s = space
+    while s is not None:
+        if s.formula is not None:
+            for p, _ in s.formula["params"]:
+                if p not in out:
+                    out.append(p)
+            ret = s.formula.get("ret") or {}
+            for n in (ret.get("refs") or {}):
+                if n not in out:
+                    out.append(n)
+        s = s.parent
+    return out
+
+
+def int_ref_names(G, space):
+    out = list(param_names(G, space))
     for n in visible_refs(G, space):
         f = G.find_ref(space, n)
         v = f[1].value if f else G.refs.get(n)
@@ -333,9 +351,14 @@ def gen_formula_spec(draw, G, space, feat):
     # ItemSpace parameters are p/q so that they do not collide with cells parameters
     params = [[{"x": "p", "y": "q"}[p], d] for p, d in params]
     f = {"params": params, "ret": None, "form": draw(st.sampled_from(["lambda", "def"]))}
-    k = draw(st.integers(0, 4))
-    if k == 0:
+    k = draw(st.integers(0, 5))
+    if k <= 1:
         f["ret"] = {"base": None, "refs": {"k0": ["bin", "+", ["var", params[0][0]], ["lit", draw(small_int())]]}}
+    elif k == 2 and feat.item_base:
+        others = [t for t in G.spaces.values() if t is not space and t.path != space.path[:1]]
+        if others:
+            t = draw(st.sampled_from(others))
+            f["ret"] = {"base": ["attr", ["name", "_model"], t.name], "refs": None}
     return f
 
 
@@ -361,8 +384,10 @@ def gen_model_ops(draw, feat, G=None):
             emit(["new_space", [SPACE_NAMES[i]], CHILD_NAMES[j], None, None])
             paths.append([SPACE_NAMES[i], CHILD_NAMES[j]])
             if draw(st.integers(0, 4)) == 0:
-                emit(["new_space", [SPACE_NAMES[i], CHILD_NAMES[j]], "Gc0", None, None])
-                paths.append([SPACE_NAMES[i], CHILD_NAMES[j], "Gc0"])
+                # a grandchild, sometimes named like a child of the same top-level space
+                gname = draw(st.sampled_from(["Gc0", "Gc0", CHILD_NAMES[0], CHILD_NAMES[1]]))
+                emit(["new_space", [SPACE_NAMES[i], CHILD_NAMES[j]], gname, None, None])
+                paths.append([SPACE_NAMES[i], CHILD_NAMES[j], gname])
     # references
     for p in paths:
         for n in REF_NAMES:
